@@ -9,6 +9,7 @@ package state
 
 import (
 	"errors"
+	"io"
 	"math/big"
 
 	"github.com/youchainhq/go-youchain/common"
@@ -22,7 +23,9 @@ import (
 //verif:mode int
 //verif:replace $M/core/state.PubToAddress zzPubToAddress
 //verif:replace $M/rlp.EncodeToBytes zzC10rEncode
+//verif:replace $M/rlp.Encode zzC10rEncodeTo
 //verif:replace $M/rlp.DecodeBytes zzC10rDecode
+//verif:replace (*$M/rlp.Stream).Decode zzC10rStreamDecode
 //verif:replace $M/rlp.Split zzC10rSplit
 //verif:replace (*$M/trie.Database).InsertBlob zzC10rInsertBlob
 //verif:replace (*$M/trie.Database).Node zzC10rNode
@@ -125,10 +128,18 @@ func zzC10rNode(db *trie.Database, h common.Hash) ([]byte, error) {
 	return nil, errors.New("not found")
 }
 
-// ---- codec stand-in: a serialisation round trip is the identity on the whole object ----
+// ---- codec stand-in ----
+// The generic (reflective) codec is the identity on whatever value it is handed, kept as a deep
+// copy; the custom EncodeRLP / DecodeRLP methods of the state types (Validator, ValidatorsStat,
+// Validators, ValidatorIndex, stakingRecord, pendingRelationship, stateObject) run for real
+// around it, with the codec's positional mapping between an encoded []interface{}{...} and the
+// struct decoded from it.  (Custom methods of values nested inside such a list are not run.)
+
+type zzC10rW struct{ b []byte }
+
+func (w *zzC10rW) Write(p []byte) (int, error) { w.b = append(w.b, p...); return len(p), nil }
 
 func zzC10rEncode(val interface{}) ([]byte, error) {
-	d := zzC10rDB
 	switch v := val.(type) {
 	case []byte: // a storage slot value
 		return append([]byte{0xEB}, v...), nil
@@ -138,13 +149,45 @@ func zzC10rEncode(val interface{}) ([]byte, error) {
 			out = append(out, a[:]...)
 		}
 		return out, nil
-	case *stateObject:
-		d.objs = append(d.objs, zzverif.DeepCopy(v.data))
-	default:
-		d.objs = append(d.objs, zzverif.DeepCopy(val))
 	}
-	return []byte{0xEE, byte(len(d.objs) - 1)}, nil
+	w := &zzC10rW{}
+	if err := zzC10rEncodeTo(w, val); err != nil {
+		return nil, err
+	}
+	return w.b, nil
 }
+
+// a per-kind statistics record nested in the list ValidatorsStat encodes: its own codec runs too
+type zzC10rNestedKS struct{ b []byte }
+
+func zzC10rEncodeTo(w io.Writer, val interface{}) error {
+	if e, ok := val.(rlp.Encoder); ok {
+		return e.EncodeRLP(w)
+	}
+	d := zzC10rDB
+	if list, ok := val.([]interface{}); ok {
+		items := make([]interface{}, len(list))
+		for i, el := range list {
+			if ks, ok := el.(*ValKindStat); ok && ks != nil {
+				w2 := &zzC10rW{}
+				if err := ks.EncodeRLP(w2); err != nil {
+					return err
+				}
+				items[i] = zzC10rNestedKS{b: w2.b}
+			} else {
+				items[i] = zzverif.DeepCopy(el)
+			}
+		}
+		d.objs = append(d.objs, items)
+		w.Write([]byte{0xEE, byte(len(d.objs) - 1)})
+		return nil
+	}
+	d.objs = append(d.objs, zzverif.DeepCopy(val))
+	w.Write([]byte{0xEE, byte(len(d.objs) - 1)})
+	return nil
+}
+
+var zzC10rCur []byte
 
 func zzC10rDecode(b []byte, out interface{}) error {
 	if len(b) > 0 && b[0] == 0xEA {
@@ -156,10 +199,40 @@ func zzC10rDecode(b []byte, out interface{}) error {
 		}
 		return nil
 	}
+	if d, ok := out.(rlp.Decoder); ok {
+		zzC10rCur = b
+		return d.DecodeRLP(nil)
+	}
+	return zzC10rRestore(b, out)
+}
+
+func zzC10rStreamDecode(s *rlp.Stream, out interface{}) error { return zzC10rRestore(zzC10rCur, out) }
+
+func zzC10rRestore(b []byte, out interface{}) error {
 	if len(b) != 2 || b[0] != 0xEE || int(b[1]) >= len(zzC10rDB.objs) {
 		return errors.New("rlp: malformed")
 	}
-	zzverif.Restore(out, zzC10rDB.objs[b[1]])
+	obj := zzC10rDB.objs[b[1]]
+	if items, ok := obj.([]interface{}); ok {
+		cp := make([]interface{}, len(items))
+		for i, it := range items {
+			if n, ok := it.(zzC10rNestedKS); ok {
+				x := new(ValKindStat)
+				saved := zzC10rCur
+				zzC10rCur = n.b
+				err := x.DecodeRLP(nil)
+				zzC10rCur = saved
+				if err != nil {
+					return err
+				}
+				cp[i] = x
+			} else {
+				cp[i] = it
+			}
+		}
+		obj = cp
+	}
+	zzverif.Restore(out, obj)
 	return nil
 }
 
